@@ -17,6 +17,12 @@ SC = 'photutils.segmentation.catalog.SourceCatalog'
 MODS = {'photutils.segmentation.catalog', 'photutils.utils._moments', 'photutils.segmentation.utils'}
 
 
+def _bitor_terms(e):
+    if isinstance(e, ast.BinOp) and isinstance(e.op, ast.BitOr):
+        return _bitor_terms(e.left) + _bitor_terms(e.right)
+    return [e]
+
+
 def body_nf(f):
     out = []
     for s in body_without_doc(f.node):
@@ -50,6 +56,47 @@ def definitions(repo, res):
     res.oblige('SPEC', '_cutout_total_masks pairs segment masks with data masks', ok, nontrivial=True)
     if not ok:
         res.add(Finding('SPEC', f.fullname, 'total mask operands', f.loc, '_cutout_total_masks must combine _cutout_segment_masks with _cutout_data_masks', {}))
+    # moment cutouts: the array handed to the moments is a copy of the (convolved) cutout with its OWN
+    # non-finite and negative pixels, the other labels and the input mask zeroed
+    f = repo.method(SC, '_moment_data_cutouts')
+    copies = [(n_.targets[0].id, n_.value.func.value) for n_ in ast.walk(f.node)
+              if isinstance(n_, ast.Assign) and len(n_.targets) == 1 and isinstance(n_.targets[0], ast.Name)
+              and isinstance(n_.value, ast.Call) and isinstance(n_.value.func, ast.Attribute) and n_.value.func.attr == 'copy'
+              and not n_.value.args]
+    zeroed = [n_ for n_ in ast.walk(f.node) if isinstance(n_, ast.Assign) and len(n_.targets) == 1
+              and isinstance(n_.targets[0], ast.Subscript) and isinstance(n_.targets[0].value, ast.Name)
+              and isinstance(n_.targets[0].slice, ast.Name)
+              and isinstance(n_.value, ast.Constant) and n_.value.value == 0]
+    if len(copies) != 1 or len(zeroed) != 1 or zeroed[0].targets[0].value.id != copies[0][0]:
+        raise AnalysisError('vanished anchor: SourceCatalog._moment_data_cutouts copy-then-zero idiom')
+    src_arr = nf(copies[0][1])
+    mname = zeroed[0].targets[0].slice.id
+    terms = set()
+    for n_ in ast.walk(f.node):
+        if isinstance(n_, ast.Assign) and len(n_.targets) == 1 and isinstance(n_.targets[0], ast.Name) and n_.targets[0].id == mname:
+            terms |= {nf(d_) for d_ in _bitor_terms(n_.value)}
+        if isinstance(n_, ast.AugAssign) and isinstance(n_.target, ast.Name) and n_.target.id == mname and isinstance(n_.op, ast.BitOr):
+            terms |= {nf(d_) for d_ in _bitor_terms(n_.value)}
+    # loop variables -> the per-source lists they iterate over
+    zsrc = {}
+    for lp in ast.walk(f.node):
+        if isinstance(lp, ast.For) and isinstance(lp.iter, ast.Call) and unparse(lp.iter.func, 0) == 'zip' \
+                and isinstance(lp.target, ast.Tuple):
+            for tv, it in zip(lp.target.elts, lp.iter.args):
+                if isinstance(tv, ast.Name):
+                    zsrc[tv.id] = nf(it)
+    sources = {zsrc.get(t, t) for t in terms}
+    total = 'self._cutout_total_masks' in sources
+    for want, meaning in ((nf_text(f'~np.isfinite({src_arr})'), 'its own non-finite pixels'),
+                          (nf_text(f'{src_arr} < 0'), 'its own negative pixels'),
+                          ('self._cutout_segment_masks', 'pixels of other labels'), ('self._mask_cutouts', 'input-mask pixels')):
+        ok = want in terms or want in sources or (total and want.startswith('self._'))
+        res.oblige('SPEC', f'_moment_data_cutouts zeroes {meaning} of `{src_arr}` before the moments', ok, nontrivial=True,
+                   sample={'mask_terms': sorted(terms)})
+        if not ok:
+            res.add(Finding('SPEC', f.fullname, f'moment mask term {meaning}', f'{f.module.relpath}:{zeroed[0].lineno}',
+                            f'SourceCatalog._moment_data_cutouts: the mask zeroed in the copy of `{src_arr}` has the terms {sorted(terms)}; '
+                            f'{meaning} (`{want}`) are missing, so they enter the centroid and second moments', {}))
     # flux-like definitions
     f = repo.method(SC, 'segment_flux')
     expect_stmt(res, 'SPEC', f, 'source_sum = ' + nf_text('np.array([np.sum(arr) for arr in self._data_values])'), 'segment_flux = sum of the unmasked segment pixels')
